@@ -166,6 +166,10 @@ def recv_case(rng, name=None, output=None, accept=None, pre=None, mode=None, lev
              level=level or rng.choice(["full", "full", "full", "decide"]))
     if mode == "dir":
         c["members"] = gen_members(rng)
+        if rng.random() < 0.35:
+            c["zipdecl"] = rng.choice([9_999_999, 10_000_000, 10_000_001, 50_000_000, 2**31, 2**40])
+    if rng.random() < 0.3:
+        c["presib"] = rng.sample([".zip", ".part", ".download", ".tar", "~", ".bak"], rng.choice([1, 2, 3]))
     if name is None and rng.random() < 0.15:
         c["link"] = rand_link(rng)
     if name is None and rng.random() < 0.05:
@@ -1238,6 +1242,13 @@ def place_pre(case, sb, name, out_set, out_abs, out_was_dir):
         else:
             sb.put_dir(would_be + ".tmp")
 
+    # files of the user's own NEXT to where the destination will be, named like it plus a suffix a receiver might use for
+    # something it spills onto the disk (an archive, a partial download): nobody announced them, nobody may touch them
+    if placeable and case.get("presib"):
+        for sfx in case["presib"]:
+            if not os.path.lexists(would_be + sfx) and os_clean(would_be + sfx):
+                sb.put_file(would_be + sfx, b"the user's own file next to the destination: " + sfx.encode())
+
     # symbolic links the user already has: at the destination name, at the staging name (both may sit inside an
     # existing --output-file directory), pointing out of the working directory into sb.vault
     link = case.get("link")
@@ -1380,8 +1391,12 @@ def _run_recv(case, sb):
                         exp.append(f"{res} | {kinds(reg)}")
             else:
                 zbytes = build_zip(members)
-                offer = {"directory": {"mode": case["zipmode"], "dirname": name, "zipsize": len(zbytes),
+                # what the offer SAYS the archive weighs is just a number chosen by the sender: small, or beyond any
+                # in-memory spooling limit a receiver might have (the bytes that follow are what they are)
+                offer = {"directory": {"mode": case["zipmode"], "dirname": name, "zipsize": case.get("zipdecl") or len(zbytes),
                                        "numbytes": 9 * len(members), "numfiles": len(members)}}
+                if case.get("zipdecl"):
+                    tags.append("zipdecl:%d" % case["zipdecl"])
                 try:
                     f = rx.call(r._handle_directory, offer)
                     if not (hasattr(f, "write") and hasattr(r, "abs_destname")):
